@@ -139,6 +139,11 @@ def LeafSupS : LeafS → Prop
   | .set (.lit x) => x.isBoxed = false
   | .clear => True
   | .touch _ => True
+  | .lrem _ => True
+  | .arem _ => True
+  | .mput _ s => SrcLit s
+  | .mrem _ => True
+  | .sapp _ => True
   | _ => False
 
 theorem srcOk_of (rd vars : Nat → Cell) (s : Src) (hl : SrcLit s) (hv : ∀ w ∈ s.vars, rd w = vars w ∧ w < nslots) :
@@ -149,11 +154,11 @@ theorem srcOk_of (rd vars : Nat → Cell) (s : Src) (hl : SrcLit s) (hv : ∀ w 
 
 theorem leaf_step (ds : DblSem) (rd : Nat → Cell) {h vars e g c} (hd : Held h vars e g c) (lf : LeafS)
     (hsup : LeafSupS lf) (hsrc : ∀ w ∈ lf.vars, rd w = vars w ∧ w < nslots) (y : Val)
-    (hy : (lf.eval (fun w => absCell g (vars w))).apply ds (absCell g c) = some y) (f : Nat) (hf : liveCount h + 1 < f) :
+    (hy : (lf.eval (fun w => absCell g (vars w))).apply ds (absCell g c) = some y) (f : Nat) (hf : liveCount h + 2 < f) :
     ∃ h' c' g', leafOp f ds rd h c lf = some (h', c') ∧ CellStep h vars e g c y 2 h' c' g' := by
   cases lf with
   | assign src =>
-    obtain ⟨h', c', g', r, st⟩ := leaf_assign rd hd src (srcOk_of rd vars src hsup hsrc) f hf
+    obtain ⟨h', c', g', r, st⟩ := leaf_assign rd hd src (srcOk_of rd vars src hsup hsrc) f (by omega)
     simp only [LeafS.eval, Leaf.apply, Option.some.injEq] at hy
     subst hy
     exact ⟨h', c', g', r, st.mono 2 (by omega)⟩
@@ -179,34 +184,60 @@ theorem leaf_step (ds : DblSem) (rd : Nat → Cell) {h vars e g c} (hd : Held h 
     split at hy
     · rename_i hk
       injection hy with hy; subst hy
-      obtain ⟨h', c', g', r, st⟩ := leaf_touch ds hd k (by unfold isKind; omega) f hf
+      obtain ⟨h', c', g', r, st⟩ := leaf_touch ds hd k (by unfold isKind; omega) f (by omega)
       exact ⟨h', c', g', r, st.mono 2 (by omega)⟩
     · cases hy
   | lapp src =>
-    obtain ⟨h', c', g', r, st⟩ := leaf_push ds rd hd false .back src (srcOk_of rd vars src hsup hsrc) f hf
+    obtain ⟨h', c', g', r, st⟩ := leaf_push ds rd hd false .back src (srcOk_of rd vars src hsup hsrc) f (by omega)
     simp only [LeafS.eval, Leaf.apply, Leaf.kind, Leaf.inPlace, coerce] at hy
     simp at hy; subst hy
     refine ⟨h', c', g', ?_, st⟩
     rw [← r]; simp only [leafOp, seqKind, Bool.false_eq_true, if_false]
     congr 1; funext s1 p; cases p <;> rfl
   | lpre src =>
-    obtain ⟨h', c', g', r, st⟩ := leaf_push ds rd hd false .front src (srcOk_of rd vars src hsup hsrc) f hf
+    obtain ⟨h', c', g', r, st⟩ := leaf_push ds rd hd false .front src (srcOk_of rd vars src hsup hsrc) f (by omega)
     simp only [LeafS.eval, Leaf.apply, Leaf.kind, Leaf.inPlace, coerce] at hy
     simp at hy; subst hy
     refine ⟨h', c', g', ?_, st⟩
     rw [← r]; simp only [leafOp, seqKind, Bool.false_eq_true, if_false]
     congr 1; funext s1 p; cases p <;> rfl
   | aapp src =>
-    obtain ⟨h', c', g', r, st⟩ := leaf_push ds rd hd true .back src (srcOk_of rd vars src hsup hsrc) f hf
+    obtain ⟨h', c', g', r, st⟩ := leaf_push ds rd hd true .back src (srcOk_of rd vars src hsup hsrc) f (by omega)
     simp only [LeafS.eval, Leaf.apply, Leaf.kind, Leaf.inPlace, coerce] at hy
     simp at hy; subst hy
     refine ⟨h', c', g', ?_, st⟩
     rw [← r]; simp only [leafOp, seqKind, if_true]
     congr 1; funext s1 p; cases p <;> rfl
-  | lrem i => exact absurd hsup (by simp [LeafSupS])
-  | arem i => exact absurd hsup (by simp [LeafSupS])
-  | mput k s => exact absurd hsup (by simp [LeafSupS])
-  | mrem k => exact absurd hsup (by simp [LeafSupS])
-  | sapp t => exact absurd hsup (by simp [LeafSupS])
+  | lrem i =>
+    simp only [LeafS.eval, Leaf.apply, Leaf.kind, Leaf.inPlace, coerce] at hy
+    simp at hy
+    obtain ⟨hi, hy⟩ := hy; subst hy
+    obtain ⟨h', c', g', r, st⟩ := leaf_remove ds hd false i (by simpa [seqOf] using hi) f hf
+    refine ⟨h', c', g', ?_, by simpa [seqVal, seqOf] using st⟩
+    rw [← r]; simp only [leafOp, seqKind, Bool.false_eq_true, if_false]
+    congr 1; funext s1 p; cases p <;> rfl
+  | arem i =>
+    simp only [LeafS.eval, Leaf.apply, Leaf.kind, Leaf.inPlace, coerce] at hy
+    simp at hy
+    obtain ⟨hi, hy⟩ := hy; subst hy
+    obtain ⟨h', c', g', r, st⟩ := leaf_remove ds hd true i (by simpa [seqOf] using hi) f hf
+    refine ⟨h', c', g', ?_, by simpa [seqVal, seqOf] using st⟩
+    rw [← r]; simp only [leafOp, seqKind, if_true]
+    congr 1; funext s1 p; cases p <;> rfl
+  | mput k src =>
+    obtain ⟨h', c', g', r, st⟩ := leaf_mput ds rd hd k src (srcOk_of rd vars src hsup hsrc) f hf
+    simp only [LeafS.eval, Leaf.apply, Leaf.kind, Leaf.inPlace, coerce] at hy
+    simp at hy; subst hy
+    exact ⟨h', c', g', by simp only [leafOp]; exact r, st⟩
+  | mrem k =>
+    obtain ⟨h', c', g', r, st⟩ := leaf_mrem ds hd k f hf
+    simp only [LeafS.eval, Leaf.apply, Leaf.kind, Leaf.inPlace, coerce] at hy
+    simp at hy; subst hy
+    exact ⟨h', c', g', by simp only [leafOp]; exact r, st⟩
+  | sapp t =>
+    obtain ⟨h', c', g', r, st⟩ := leaf_sapp ds hd t f hf
+    simp only [LeafS.eval, Leaf.apply, Leaf.kind, Leaf.inPlace, coerce] at hy
+    simp at hy; subst hy
+    exact ⟨h', c', g', by simp only [leafOp]; exact r, st⟩
 
 end Nstd.Variant.Deep
